@@ -6,10 +6,40 @@ STD_ASSUME = ["the Lean model is tied to /repo by the T1 extractor and the T2 co
 HOOK_COMMITS = ["9665c83 verif hooks: yield points in the sse delivery goroutine and handler exit path"]
 
 PROPS = {
-    "C12": {
+    "C16": {
         "claimed": False, "na_reason": "proofs in progress",
+        "model_modules": ["TemplVerif.Model.Quote"],
+        "proof_modules": ["TemplVerif.Proofs.Quote"],
+        "level_text": "Lean 4 theorems: for every byte string and every behaviour of unicode.IsPrint that does not call LF printable, "
+                      "strconv.Unquote inverts the generator's strconv.Quote escaping and the escaped literal contains no raw line break "
+                      "(C16_roundtrip); hence for every list of literals, line i of the development text file unquotes to the literal the "
+                      "normally generated code carries at index i (C16_devmode); and whenever the model of HasChanged reports no change, a "
+                      "compiled template - a function of its code-without-literals and of the literals read at run time - reading the updated "
+                      "text file is the newly generated program (C16_norecompile). What HasChanged compares and where the code digest is "
+                      "suspended are regenerated from generator.go / rangewriter.go and pinned (C16_haschanged_pinned). Compared on every run "
+                      "with the real strconv.Quote/Unquote (IsPrint supplied per string), the real literals and text-file round trip of repo and "
+                      "grammar-generated templates, 20 fixture components rendered normally and in a TEMPL_DEV_MODE child process fed by the "
+                      "real FSEventHandler, and thousands of edit pairs through the real HasChanged with the Lean predicate 'no change => code "
+                      "differs only in literals'.",
+        "level_note": "Trusted: SHA-256 collision resistance (digest equality stands for equality of the code without literals); the Go "
+                      "compiler reads an interpreted string literal as strconv.Unquote does; unicode.IsPrint is a parameter; the text-file cache "
+                      "refresh (100 ms / mtime) in runtime/watchmode.go is exercised only through the child-process run.",
+        "rule": "Quote/Unquote: all strings to length 3 (4) over 25 symbols (quotes, backslash, controls, NBSP, U+2028, BOM, invalid bytes, "
+                "astral) + random runes; literals of 63 repo templates, seeds with CRLF and 200 (4000) generated templates; 20 fixtures in "
+                "dev mode; edit pairs: every two-slot template over 31 node forms grouped by (literal count, expression list), all pairs within "
+                "groups + random cross pairs. Non-trivial = escaping changed the string / HasChanged said no recompilation.",
+        "exhaustive": True,
+        "proved": ["C16_roundtrip", "C16_devmode", "C16_norecompile", "C16_haschanged_pinned (T1)"],
+        "monitored": ["model = real strconv.Quote / Unquote", "real literals survive the text file", "dev-mode render = normal render (child process)",
+                      "HasChanged false => generated code equal outside literals"],
+        "partial": [],
+        "trusted_base": ["SHA-256", "Go compiler's string literal semantics = strconv.Unquote", "unicode.IsPrint as a parameter"],
+        "assumptions": STD_ASSUME,
+    },
+    "C12": {
+        "claimed": True,
         "model_modules": ["TemplVerif.Model.Registry"],
-        "proof_modules": ["TemplVerif.Proofs.Registry"],
+        "proof_modules": ["TemplVerif.Proofs.Registry", "TemplVerif.Proofs.RegistryAux"],
         "level_text": "Lean 4 theorems, by induction over ANY sequence of uses (script rendered as a component, on* attributes referencing scripts, "
                       "class expressions holding CSS components in every container form the runtime switches on, once-handle renders) in one "
                       "context: each script definition, CSS rule and once content is emitted at most once (C12_once), a script call is always "
